@@ -105,6 +105,11 @@ func c03Pattern(c *sim.Ctx, depth int) interface{} {
 			return map[string]interface{}{"?k": "?v"}
 		}
 		return map[string]interface{}{"a": []interface{}{"?x"}, "b": []interface{}{"?y"}}
+	case k == 9 && depth == 0 && c.Bool("arrayalt"):
+		// an array whose first member has several alternatives, one of which binds the
+		// variable to data that is an invalid pattern for the second member: whichever
+		// alternative is tried first, the answer is that error
+		return []interface{}{map[string]interface{}{"a": "?x"}, map[string]interface{}{"b": "?x"}}
 	case k == 8 && c.Bool("choosethenindex"):
 		// a variable bound in several ways by an array, then used as the property variable of
 		// another part of the pattern: every alternative has to look up its own property
@@ -134,6 +139,16 @@ func c03Wide(p map[string]interface{}) bool {
 	}
 	b, ok := p["b"].([]interface{})
 	return ok && len(p) == 2 && len(b) == 1 && b[0] == "?y"
+}
+
+// c03ArrayAlt recognises the "array alternatives" family.
+func c03ArrayAlt(p []interface{}) bool {
+	if len(p) != 2 {
+		return false
+	}
+	a, ok1 := p[0].(map[string]interface{})
+	b, ok2 := p[1].(map[string]interface{})
+	return ok1 && ok2 && len(a) == 1 && len(b) == 1 && a["a"] == "?x" && b["b"] == "?x"
 }
 
 // c03ChooseThenIndex recognises the pattern family above.
@@ -213,6 +228,23 @@ func c03Message(c *sim.Ctx, pat interface{}, depth int) interface{} {
 		}
 		return m
 	case []interface{}:
+		if depth == 0 && c03ArrayAlt(p) {
+			bad := map[string]interface{}{"?k": 1.0, "z": 2.0}
+			members := []interface{}{
+				map[string]interface{}{"a": bad},
+				map[string]interface{}{"a": map[string]interface{}{"p": 1.0}},
+				map[string]interface{}{"b": map[string]interface{}{"p": 1.0}},
+				map[string]interface{}{"a": map[string]interface{}{"q": 2.0}, "b": map[string]interface{}{"q": 2.0, "r": 3.0}},
+			}
+			n := 3 + c.Intn(2, "altmembers")
+			if c.Bool("altgood") {
+				members = members[1:] // no failing alternative at all
+			}
+			if n > len(members) {
+				n = len(members)
+			}
+			return append([]interface{}{}, members[:n]...)
+		}
 		var a []interface{}
 		for _, e := range p {
 			a = append(a, c03Message(c, e, depth+1))
